@@ -62,17 +62,17 @@ Proof. unfold not_data, syncml_data_type. intros H. apply negb_true_iff in H. re
 
 Lemma run_spec tbl ef evs ns : spec_forest evs ns -> no_data evs = true -> forall st f up,
   b_stack st = f :: up -> f_cdata f = None -> not_data (f_tag f) = true ->
-  build_from tbl (S ef) evs st =
+  build_from tbl ef evs st =
     BOk (mk_bstate (b_lang st) (b_charset st) (mk_frame (f_tag f) (f_attrs f) (fold_left add_node ns (f_done f)) None :: up) (b_root st)).
 Proof.
   induction 1 as [|tg dt r ns Hr IH|b r ns Hr IH|t a inner r ch ns Hi IHi Hr IHr]; intros Hn st f up Hs Hc Hd.
-  - cbn [build_from fold_left]. destruct st as [l c s ro]. cbn [b_stack] in Hs. subst s. destruct f as [ft fa fd fc]. cbn [f_cdata] in Hc. subst fc. reflexivity.
-  - cbn [build_from]. cbn [no_data forallb] in Hn. apply (IH Hn st f up Hs Hc Hd).
-  - cbn [no_data forallb] in Hn. cbn [build_from]. rewrite Hs, (dtype_not_data f up Hd).
-    unfold add_to_current. rewrite Hs, Hc.
+  - rewrite build_from_nil. cbn [fold_left]. destruct st as [l c s ro]. cbn [b_stack] in Hs. subst s. destruct f as [ft fa fd fc]. cbn [f_cdata] in Hc. subst fc. reflexivity.
+  - rewrite build_from_eq. cbn [no_data forallb] in Hn. apply (IH Hn st f up Hs Hc Hd).
+  - cbn [no_data forallb] in Hn. rewrite build_from_eq. rewrite Hs, (dtype_not_data f up Hd).
+    unfold bnext, add_to_current. rewrite Hs, Hc.
     pose proof (IH Hn (mk_bstate (b_lang st) (b_charset st) (mk_frame (f_tag f) (f_attrs f) (add_node (f_done f) (TText b)) None :: up) (b_root st))
                   (mk_frame (f_tag f) (f_attrs f) (add_node (f_done f) (TText b)) None) up eq_refl eq_refl Hd) as E.
-    cbn [build_from] in E. exact E.
+    exact E.
   - cbn [no_data forallb] in Hn. rewrite forallb_app in Hn. cbn [forallb] in Hn. rewrite !andb_true_iff in Hn.
     destruct Hn as [Ht [Hni [_ Hnr]]].
     change (EvStartElt t a :: inner ++ EvEndElt t :: r) with ([EvStartElt t a] ++ inner ++ [EvEndElt t] ++ r).
@@ -143,19 +143,13 @@ Proof.
   intros s0 e0 s0' Hc. apply (IH _ _ _ _ _ Hc).
 Qed.
 
-(* (C) the theorem *)
-Theorem build_is_spec tbl forced meta fuel bs evs :
-  parse_with tbl forced meta fuel bs = POk evs -> no_data evs = true ->
-  exists cs lid p1 t a inner p2 ch,
+Lemma parse_shape_body tbl forced meta fuel bs evs : parse_with tbl forced meta fuel bs = POk evs ->
+  exists cs lid p1 t a inner p2,
     evs = EvStartDoc cs lid :: (p1 ++ (EvStartElt t a :: inner ++ [EvEndElt t]) ++ p2) ++ [EvEndDoc]
-    /\ all_pi p1 = true /\ all_pi p2 = true /\ spec_forest inner ch
-    /\ forall ef, build tbl (S ef) evs = BOk (mk_wtree lid cs (Some (TElt t a (merge_text ch)))).
+    /\ all_pi p1 = true /\ all_pi p2 = true /\ bal 1000 inner /\ forallb body_ev inner = true.
 Proof.
-  intros Hp Hn.
-  assert (Hbody : exists cs lid p1 t a inner p2,
-             evs = EvStartDoc cs lid :: (p1 ++ (EvStartElt t a :: inner ++ [EvEndElt t]) ++ p2) ++ [EvEndDoc]
-             /\ all_pi p1 = true /\ all_pi p2 = true /\ bal 1000 inner /\ forallb body_ev inner = true).
-  { revert Hp. unfold parse_with. destruct bs as [|b0 bs0]; [discriminate|].
+  intros Hp.
+  revert Hp. unfold parse_with. destruct bs as [|b0 bs0]; [discriminate|].
     destruct (parse_uint8 _) as [[version r0]|e|]; try discriminate.
     destruct (parse_publicid r0) as [[[pubid pubidx] r1]|e|]; try discriminate.
     destruct (if version =? 0 then _ else _) as [[charset r2]|e|]; try discriminate.
@@ -171,7 +165,19 @@ Proof.
     destruct (element_with_shape 1000 _ _ _ _ _ _ (fun s e s' Hc => content_loop_bal _ _ 0 s e s' ltac:(lia) Hc) E2) as (t & a & inner & -> & Hb).
     eexists. eexists. exists e1, t, a, inner, e3. split; [reflexivity|].
     repeat split; [apply (body_pi_loop_all_pi _ _ _ _ _ E1)|apply (body_pi_loop_all_pi _ _ _ _ _ E3)|exact Hb|].
-    cbn [forallb body_ev] in Hbe. rewrite forallb_app in Hbe. rewrite !andb_true_iff in Hbe. tauto. }
+    cbn [forallb body_ev] in Hbe. rewrite forallb_app in Hbe. rewrite !andb_true_iff in Hbe. tauto.
+Qed.
+
+(* (C) the theorem *)
+Theorem build_is_spec tbl forced meta fuel bs evs :
+  parse_with tbl forced meta fuel bs = POk evs -> no_data evs = true ->
+  exists cs lid p1 t a inner p2 ch,
+    evs = EvStartDoc cs lid :: (p1 ++ (EvStartElt t a :: inner ++ [EvEndElt t]) ++ p2) ++ [EvEndDoc]
+    /\ all_pi p1 = true /\ all_pi p2 = true /\ spec_forest inner ch
+    /\ forall ef, build tbl ef evs = BOk (mk_wtree lid cs (Some (TElt t a (merge_text ch)))).
+Proof.
+  intros Hp Hn.
+  pose proof (parse_shape_body _ _ _ _ _ _ Hp) as Hbody.
   destruct Hbody as (cs & lid & p1 & t & a & inner & p2 & -> & H1 & H2 & Hbal & Hbe).
   destruct (bal_spec 1000 inner Hbal Hbe) as [ch Hs].
   exists cs, lid, p1, t, a, inner, p2, ch. repeat split; try assumption.
@@ -185,13 +191,89 @@ Proof.
     apply in_or_app. left. right. apply in_or_app. left. exact Hx. }
   change (EvStartDoc cs lid :: (p1 ++ (EvStartElt t a :: inner ++ [EvEndElt t]) ++ p2) ++ [EvEndDoc])
     with ([EvStartDoc cs lid] ++ (p1 ++ ([EvStartElt t a] ++ inner ++ [EvEndElt t]) ++ p2) ++ [EvEndDoc]).
-  rewrite build_from_app. change (build_from tbl (S ef) [EvStartDoc cs lid] st_init) with (BOk (mk_bstate lid cs [] None)).
-  cbv beta iota. rewrite build_from_app, build_from_app. rewrite (build_from_pis tbl ef p1 _ H1). cbv beta iota.
+  rewrite build_from_app, build_from_startdoc. change (mk_bstate lid cs (b_stack st_init) (b_root st_init)) with (mk_bstate lid cs [] None).
+  cbv beta iota. rewrite build_from_app, build_from_app. rewrite (build_from_pis tbl _ p1 _ H1). cbv beta iota.
   rewrite build_from_app, build_from_app, build_from_start.
   change (cb_start_element t a (mk_bstate lid cs [] None)) with (BOk (mk_bstate lid cs [mk_frame t a [] None] None)). cbv beta iota.
   rewrite build_from_app.
   rewrite (run_spec tbl ef inner ch Hs Hni (mk_bstate lid cs [mk_frame t a [] None] None) (mk_frame t a [] None) [] eq_refl eq_refl Ht).
   cbn [b_lang b_charset b_root f_tag f_attrs f_done]. rewrite build_from_end. unfold cb_end_element. cbn [b_stack f_cdata].
-  rewrite (build_from_pis tbl ef p2 _ H2). cbn [build_from]. unfold tree_of_state. cbn [b_lang b_charset b_stack view hd_error].
+  rewrite (build_from_pis tbl _ p2 _ H2). rewrite build_from_enddoc. unfold tree_of_state. cbn [b_lang b_charset b_stack view hd_error].
   unfold frame_node, frame_children, cdata_nodes, merge_text. cbn [f_tag f_attrs f_done f_cdata]. rewrite !app_nil_r. reflexivity.
+Qed.
+
+(* the root of a tree that is built from the events of a successful parse is an element: the root element of the
+   document, with its tag and attributes *)
+Theorem build_root_element tbl forced meta fuel bs evs ef t :
+  parse_with tbl forced meta fuel bs = POk evs -> build tbl ef evs = BOk t ->
+  exists cs lid p1 tg a inner p2 ch,
+    evs = EvStartDoc cs lid :: (p1 ++ (EvStartElt tg a :: inner ++ [EvEndElt tg]) ++ p2) ++ [EvEndDoc]
+    /\ t = mk_wtree lid cs (Some (TElt tg a ch)).
+Proof.
+  intros Hp Hb. destruct (parse_shape_body _ _ _ _ _ _ Hp) as (cs & lid & p1 & tg & a & inner & p2 & -> & H1 & H2 & Hbal & Hbe).
+  exists cs, lid, p1, tg, a, inner, p2.
+  unfold build in Hb.
+  destruct (build_from tbl ef _ st_init) as [st|e|] eqn:E; try discriminate. injection Hb as <-.
+  change (EvStartDoc cs lid :: (p1 ++ (EvStartElt tg a :: inner ++ [EvEndElt tg]) ++ p2) ++ [EvEndDoc])
+    with ([EvStartDoc cs lid] ++ (p1 ++ ([EvStartElt tg a] ++ inner ++ [EvEndElt tg]) ++ p2) ++ [EvEndDoc]) in E.
+  rewrite build_from_app in E. rewrite build_from_startdoc in E. change (mk_bstate lid cs (b_stack st_init) (b_root st_init)) with (mk_bstate lid cs [] None) in E.
+  cbv beta iota in E. rewrite build_from_app in E. rewrite build_from_app in E.
+  rewrite (build_from_pis tbl _ p1 _ H1) in E. cbv beta iota in E.
+  rewrite build_from_app in E. rewrite build_from_app in E.
+  rewrite build_from_start in E. change (cb_start_element tg a (mk_bstate lid cs [] None)) with (BOk (mk_bstate lid cs [mk_frame tg a [] None] None)) in E.
+  cbv beta iota in E. rewrite build_from_app in E.
+  destruct (build_from tbl ef inner (mk_bstate lid cs [mk_frame tg a [] None] None)) as [st2|er|] eqn:E2; try discriminate.
+  destruct (run_bal tbl ef 1000 inner Hbal (mk_bstate lid cs [mk_frame tg a [] None] None) (mk_frame tg a [] None) [] st2 eq_refl E2) as (g & G1 & G2 & G3 & _ & G5).
+  cbn [b_root f_tag f_attrs] in G2, G3, G5.
+  assert (Hlc : b_lang st2 = lid /\ b_charset st2 = cs).
+  { clear -E2 Hbe.
+    assert (G : forall evs0 s0 s1, forallb (fun e => match e with EvStartDoc _ _ => false | _ => true end) evs0 = true ->
+                build_from tbl ef evs0 s0 = BOk s1 -> b_lang s1 = b_lang s0 /\ b_charset s1 = b_charset s0).
+    { induction evs0 as [|e r IH]; intros s0 s1 Hn Hx; [rewrite build_from_nil in Hx; injection Hx as <-; tauto|].
+      cbn [forallb] in Hn. apply andb_prop in Hn. destruct Hn as [He Hr].
+      change (e :: r) with ([e] ++ r) in Hx. rewrite build_from_app in Hx.
+      destruct (build_from tbl ef [e] s0) as [sm| |] eqn:Em; try discriminate.
+      destruct (IH sm s1 Hr Hx) as [I1 I2]. rewrite I1, I2. clear IH Hx.
+      assert (Hadd : forall s n x, add_to_current s n = BOk x -> b_lang x = b_lang s /\ b_charset x = b_charset s).
+      { intros s n x. unfold add_to_current. destruct (b_stack s); [destruct (b_root s); [discriminate|]|]; intros H; injection H as <-; tauto. }
+      assert (Hnext : forall s n, match add_to_current s n with BOk st' => BOk st' | BErr er => BErr er | BFuel => BFuel end = BOk sm ->
+                        b_lang sm = b_lang s /\ b_charset sm = b_charset s).
+      { intros s n. destruct (add_to_current s n) as [x| |] eqn:Ea; try discriminate. intros H. injection H as <-. exact (Hadd _ _ _ Ea). }
+      assert (Hnil : forall s, build_from tbl ef [] s = BOk s) by (intros s; apply build_from_nil).
+      destruct e as [c0 l0|t0 a0|ch|tg0 dt|t0|]; try discriminate.
+      - rewrite build_from_start in Em. rename Em into Ec.
+        revert Ec. unfold cb_start_element. destruct (b_stack s0); [destruct (b_root s0); [discriminate|]|]; intros H; injection H as <-; tauto.
+      - rewrite build_from_eq in Em. unfold bnext in Em.
+        assert (Hnext' : forall s n, match add_to_current s n with BOk st' => build_from tbl ef [] st' | BErr er => BErr er | BFuel => BFuel end = BOk sm ->
+                        b_lang sm = b_lang s /\ b_charset sm = b_charset s).
+        { intros s n. destruct (add_to_current s n) as [x| |] eqn:Ea; try discriminate. rewrite Hnil. intros H. injection H as <-. exact (Hadd _ _ _ Ea). }
+        clear Hnext. rename Hnext' into Hnext.
+        assert (Hoc : b_lang (open_cdata s0) = b_lang s0 /\ b_charset (open_cdata s0) = b_charset s0).
+        { unfold open_cdata. destruct (b_stack s0) as [|f0 u0]; [tauto|]. destruct (f_cdata f0); tauto. }
+        destruct (syncml_data_type (b_stack s0)).
+        + exact (Hnext _ _ Em).
+        + destruct ef as [|lv]; [exact (Hnext _ _ Em)|].
+          destruct (parse_with tbl 0 (b_charset s0) (S (length ch)) ch) as [evs'| |].
+          * destruct (build_from tbl lv evs' st_init); try discriminate; cbv zeta in Em; exact (Hnext _ _ Em).
+          * exact (Hnext _ _ Em).
+          * discriminate.
+        + destruct (Hnext _ _ Em) as [X1 X2]. destruct Hoc as [O1 O2]. rewrite X1, X2, O1, O2. tauto.
+      - rewrite build_from_eq, Hnil in Em. injection Em as <-. tauto.
+      - rewrite build_from_end in Em. rename Em into Ec.
+        revert Ec. unfold cb_end_element. destruct (b_stack s0) as [|f0 [|p0 u0]]; [discriminate| |].
+        + destruct (f_cdata f0); intros H; injection H as <-; tauto.
+        + intros H; injection H as <-; tauto.
+      - rewrite build_from_eq, Hnil in Em. injection Em as <-. tauto. }
+    apply (G inner (mk_bstate lid cs [mk_frame tg a [] None] None) st2); [|exact E2].
+    clear -Hbe. induction inner as [|e r IH]; [reflexivity|]. cbn [forallb] in *. apply andb_prop in Hbe. destruct Hbe as [He Hr].
+    rewrite (IH Hr). destruct e; try discriminate; reflexivity. }
+  destruct Hlc as [Hl Hc].
+  cbv beta iota in E. rewrite build_from_end in E. unfold cb_end_element in E. rewrite G1 in E.
+  destruct (f_cdata g) eqn:Ec.
+  - rewrite (build_from_pis tbl _ p2 _ H2) in E. rewrite build_from_enddoc in E. injection E as <-.
+    exists (frame_children g []). split; [reflexivity|]. unfold tree_of_state. cbn [b_stack b_root b_lang b_charset].
+    unfold frame_node. rewrite G2, G3, Hl, Hc. reflexivity.
+  - rewrite (build_from_pis tbl _ p2 _ H2) in E. rewrite build_from_enddoc in E. injection E as <-.
+    exists (frame_children g []). split; [reflexivity|]. unfold tree_of_state. rewrite G1. cbn [view hd_error].
+    unfold frame_node. rewrite G2, G3, Hl, Hc. reflexivity.
 Qed.
